@@ -14,7 +14,10 @@
 (*   Scaled   features multiplied by 2^shift (|shift| up to 200, either    *)
 (*            sign): identical tree with every threshold multiplied by     *)
 (*            exactly 2^shift, and itself a fit that satisfies TreeVerdict;*)
-(*   ArgSort  quick_argsort_mut sorts.                                     *)
+(*            (near overflow, 2^1023 / 2^127: same partition only);        *)
+(*   ArgSort  quick_argsort_mut sorts (random vectors, structured orders   *)
+(*            such as decreasing runs with one exception, organ pipe, saw  *)
+(*            tooth, median-of-three killers, lengths around powers of 2). *)
 (*                                                                         *)
 (* The spec never blocks: a failing event prints <<"BAD", ...>> with the   *)
 (* name of the first failing clause and the run goes on.                   *)
@@ -33,7 +36,8 @@ NoFit == [run |-> -1, sig |-> <<>>]
 HitNames == {"TreeFit", "Cls", "Reg", "DepthLimited", "LeafLimit", "OptReg", "OptNodesChecked", "OptNodesSkipped",
              "CompleteReg", "SideCond", "OptGini", "OptEntropy", "OptError", "CompleteCls", "Reproduce",
              "Refit", "Scaled", "ScaledFar", "Orphan", "ArgSort", "Replayed", "Drift",
-             "Adjacent", "F32", "NdarrayF", "NdarrayC", "Nalgebra"}
+             "Adjacent", "F32", "NdarrayF", "NdarrayC", "Nalgebra",
+             "NearMax", "Ordered", "Ladder", "TraitEntry", "SortPattern", "SortLadder"}
 
 Bump(h, names) == [x \in DOMAIN h |-> h[x] + (IF x \in names THEN 1 ELSE 0)]
 Add(h, name, k) == [h EXCEPT ![name] = @ + k]
@@ -45,6 +49,9 @@ Exercised(e, r) ==
     {"TreeFit"}
     \cup (IF e.kind = "cls" THEN {"Cls"} ELSE {"Reg"})
     \cup (IF e.family = "adjacent" /\ Len(e.nodes) > 1 THEN {"Adjacent"} ELSE {})
+    \cup (IF e.family = "ordered" /\ Len(e.X) >= 8 THEN {"Ordered"} ELSE {})      \* structured row orders
+    \cup (IF e.family = "ladder" /\ Len(e.X) >= 255 THEN {"Ladder"} ELSE {})      \* sizes around powers of two
+    \cup (IF e.entry = "trait" THEN {"TraitEntry"} ELSE {})                        \* SupervisedEstimator / Predictor
     \cup (CASE e.backend = "dense32" -> {"F32"} [] e.backend = "ndarray_f" -> {"NdarrayF"}
             [] e.backend = "ndarray_c" -> {"NdarrayC"} [] e.backend = "nalgebra" -> {"Nalgebra"} [] OTHER -> {})
     \cup (IF e.maxDepth > 0 THEN {"DepthLimited"} ELSE {})
@@ -82,21 +89,27 @@ RefitStep(e) ==
     /\ UNCHANGED last
     /\ IF last.run # e.run
        THEN hits' = Bump(hits, {"Orphan"}) /\ UNCHANGED nbad      \* its TreeFit already failed
-       ELSE IF ~(e.status = "ok" /\ SameTreeUpToShift(last.sig, e.sig, e.shift))
+       ELSE IF ~(e.status = "ok" /\ IF e.ev = "Scaled" /\ NearOverflow(e.prec, e.shift)
+                                    THEN SameShape(last.sig, e.sig)
+                                    ELSE SameTreeUpToShift(last.sig, e.sig, e.shift))
             THEN /\ Bad(e, IF e.ev = "Refit" THEN "Deterministic" ELSE "ScaleInvariant")
                  /\ nbad' = nbad + 1 /\ UNCHANGED hits
             ELSE IF e.ev = "Refit"
                  THEN hits' = Bump(hits, {"Refit"}) /\ UNCHANGED nbad
                  ELSE LET r == TreeVerdict(e) IN
                       IF r.c = "ok"
-                      THEN /\ hits' = Bump(hits, {"Scaled"} \cup (IF e.shift >= 50 \/ e.shift <= -50 THEN {"ScaledFar"} ELSE {}))
+                      THEN /\ hits' = Bump(hits, {"Scaled"} \cup (IF e.shift >= 50 \/ e.shift <= -50 THEN {"ScaledFar"} ELSE {})
+                                                  \cup (IF NearOverflow(e.prec, e.shift) /\ Len(e.nodes) > 1 THEN {"NearMax"} ELSE {}))
                            /\ UNCHANGED nbad
                       ELSE Bad(e, r.c) /\ nbad' = nbad + 1 /\ UNCHANGED hits
 
 SortStep(e) ==
     /\ UNCHANGED last
     /\ IF e.status = "ok" /\ IsArgSort(e.v, e.idx, e.sorted)
-       THEN hits' = Bump(hits, {"ArgSort"}) /\ UNCHANGED nbad
+       THEN hits' = Bump(hits, {"ArgSort"} \cup (IF "family" \in DOMAIN e
+                                                  THEN (IF e.family \in {"pattern", "embedded"} THEN {"SortPattern"} ELSE {})
+                                                       \cup (IF e.family = "ladder" THEN {"SortLadder"} ELSE {})
+                                                  ELSE {})) /\ UNCHANGED nbad
        ELSE Bad(e, "IsArgSort") /\ nbad' = nbad + 1 /\ UNCHANGED hits
 
 Step ==
